@@ -83,7 +83,9 @@ func transfer(state map[string]bool, in ssa.Instruction) {
 	}
 }
 
-func lockSets(fn *ssa.Function) *lockInfo {
+func lockSets(fn *ssa.Function) *lockInfo { return lockSetsD(fn, 0) }
+
+func lockSetsD(fn *ssa.Function, depth int) *lockInfo {
 	li := &lockInfo{fn: fn, in: map[*ssa.BasicBlock]map[string]bool{}, keys: map[string]bool{}}
 	if len(fn.Blocks) == 0 {
 		return li
@@ -108,7 +110,15 @@ func lockSets(fn *ssa.Function) *lockInfo {
 	for _, b := range fn.Blocks {
 		li.in[b] = full()
 	}
-	li.in[fn.Blocks[0]] = map[string]bool{}
+	li.in[fn.Blocks[0]] = entryLocks(fn, depth)
+	for k := range li.in[fn.Blocks[0]] {
+		li.keys[k] = true
+	}
+	for _, b := range fn.Blocks[1:] {
+		for k := range li.in[fn.Blocks[0]] {
+			li.in[b][k] = true
+		}
+	}
 	changed := true
 	for changed {
 		changed = false
@@ -150,6 +160,49 @@ func lockSets(fn *ssa.Function) *lockInfo {
 		}
 	}
 	return li
+}
+
+// entryLocks: the locks certainly held whenever fn starts — for an unexported function or method that is only ever
+// called directly (never started with go, deferred, or used as a value), the intersection of what its callers hold
+// at their call sites ("…Locked" helpers). Everything else starts with nothing held.
+func entryLocks(fn *ssa.Function, depth int) map[string]bool {
+	out := map[string]bool{}
+	c := lastCtx
+	if c == nil || depth > 2 || fn.Parent() != nil || fn.Object() == nil || fn.Object().Exported() || len(c.valueUses(fn)) > 0 {
+		return out
+	}
+	first := true
+	for _, ci := range c.callersOf(fn) {
+		if c.FnInControl(ci.Parent()) {
+			continue
+		}
+		if _, isCall := ci.(*ssa.Call); !isCall {
+			return map[string]bool{} // go / defer: runs when the caller's locks may be gone
+		}
+		caller := ci.Parent()
+		var held map[string]bool
+		if caller == fn {
+			continue
+		}
+		li := lockSetsD(caller, depth+1)
+		held = li.heldAt(ci)
+		if first {
+			for k := range held {
+				out[k] = true
+			}
+			first = false
+		} else {
+			for k := range out {
+				if !held[k] {
+					delete(out, k)
+				}
+			}
+		}
+	}
+	if first {
+		return map[string]bool{}
+	}
+	return out
 }
 
 // heldAt: the locks certainly held just before instruction `at`.
